@@ -139,7 +139,9 @@ def check(ctx):
             elif isinstance(s.op, ast.Add):
                 delta = canon(v)
         elif kind == "assign":
-            e = v
+            from .common import deref_expr
+
+            e = deref_expr(prog, fn, v)  # cap / increment kept in locals
             if call_name(e) in ("np.minimum", "min") and len(e.args) == 2:
                 for a, b in ((e.args[0], e.args[1]), (e.args[1], e.args[0])):
                     if canon(b) == "OPT[max_poll_grid_number]":
@@ -186,7 +188,9 @@ def check(ctx):
         for s, g, gtxt in rest:
             inner = [x for x in gtxt if x not in ("not " + canon(flag.test), canon(flag.test, neg=True))]
             in_else = any(s in ast.walk(x) for x in flag.orelse)
-            want = {"OPT[accelerate_mesh]", "(OPT[accelerate_mesh_steps] < iter)", "(self.f_q_historic_improvement < OPT[tol_fun])"}
+            # the iteration counter is a local copy of OS[iter]; guard_canon lists each conjunct as written and with
+            # locals expanded, so the expanded spelling is the one to ask for
+            want = {"OPT[accelerate_mesh]", "(OPT[accelerate_mesh_steps] < OS[iter])", "(self.f_q_historic_improvement < OPT[tol_fun])"}
             got = set(inner)
             if in_else and want <= got and len(rest) == 1:
                 ctx.ok(poll, s, "extra m - 1 under accelerate_mesh and iter > steps and stall < tol_fun")
@@ -222,7 +226,13 @@ def check(ctx):
 
     # ------------------------------------------------------------------ R3
     ctx.rule("R3", "search exponent = min(., m*k - n) with k >= 1, n >= 0: the search mesh never exceeds the poll mesh", floor=3)
+    from .common import deref_expr as _dx
+
+    exp_locals = {}  # (fn, local name) whose value is stored unchanged as the search exponent
     for fn, t, v, s, kind in key_stores(prog, "OS", "search_size_integer"):
+        if isinstance(v, ast.Name):
+            exp_locals[(fn, v.id)] = True
+        v = _dx(prog, fn, v)  # exponent computed in a local first
         ok3 = False
         if call_name(v) in ("np.minimum", "min") and len(v.args) == 2:
             for a, b in ((v.args[0], v.args[1]), (v.args[1], v.args[0])):
@@ -233,7 +243,25 @@ def check(ctx):
                     ok3 = True
         ctx.check(ok3, fn, s, "search exponent <- min(0 | itself, m*k - n)", f"the search mesh exponent is set to '{canon(v)[:70]}', not min(., mesh exponent * search_grid_multiplier - search_grid_number)", construct=f"OS[search_size_integer] <- {canon(v)[:70]}")
     ctx.check(k is not None and k >= 1 and n is not None and n >= 0, ini.advanced.path, None, f"ini: search_grid_multiplier = {k} >= 1, search_grid_number = {n} >= 0", f"ini constants k={k}, n={n} do not give m*k - n <= m", construct=f"ini search grid constants k={k} n={n}")
+    def _pow_of_search_exponent(fn, v) -> bool:
+        """multiplier ** <search exponent>, the exponent read from the state or from the local that is stored there."""
+        e = v
+        for _ in range(3):
+            if isinstance(e, ast.Name):
+                dd = reaching_assignments(prog, fn, e.id, v)
+                if len(dd) == 1:
+                    e = dd[0]
+                    continue
+            break
+        if isinstance(e, ast.BinOp) and isinstance(e.op, ast.Pow) and _deref(prog, fn, e.left) in ("OPT[poll_mesh_multiplier]", "float(OPT[poll_mesh_multiplier])"):
+            r = e.right
+            return canon(r) == "OS[search_size_integer]" or (isinstance(r, ast.Name) and (fn, r.id) in exp_locals)
+        return False
+
     for fn, t, v, s, kind in key_stores(prog, "OS", "search_mesh_size"):
+        if _pow_of_search_exponent(fn, v) or (canon(v) == "self.search_mesh_size" and any(_pow_of_search_exponent(m_, v_) for m_, t_, v_, s_, k_ in attr_stores(prog, R.bads, "search_mesh_size") if m_ is fn)):
+            ctx.ok(fn, s, "search mesh size = multiplier ** search exponent (through a local / the attribute copy)")
+            continue
         cv = _deref(prog, fn, v)
         ok4 = cv in ("(OPT[poll_mesh_multiplier] ** OS[search_size_integer])", "(float(OPT[poll_mesh_multiplier]) ** OS[search_size_integer])")
         ctx.check(ok4, fn, s, "search mesh size = multiplier ** search exponent", f"the search mesh size is '{cv[:60]}', not multiplier ** search exponent", construct=f"OS[search_mesh_size] <- {cv[:60]}")
